@@ -116,7 +116,7 @@ class SolverPairs(SubCheck):
             if dE > 1e-3:
                 # which of the two deviates? tie-break with two further paths (plain adaptive mixing and plain Pulay, cold start)
                 refs = []
-                for rk in ("adaptive", "pulay"):
+                for rk in ("adaptive", "fixed3"):
                     try:
                         rr = _run(Z, geom, method, CONFIGS[rk], eps)
                         if not notconv(rr)[0]:
@@ -127,10 +127,10 @@ class SolverPairs(SubCheck):
                 devname = "+".join(sorted(case[k_] for k_ in dev)) or "undetermined"
                 msg = (f"step {step}: {case['a']} gives Etot {out['a'][0]:.6f}, {case['b']} gives {out['b'][0]:.6f}, tie-break runs {['%.6f' % e_ for e_ in refs]} "
                        f"(all flagged converged, gap {gap:.2f} eV, start {case['start']}); deviating: {devname}")
-                if devname == "pulay_sp2":
+                if devname in ("pulay_sp2", "pulay", "pulay+pulay_sp2"):
                     # recorded finding: Pulay DIIS combined with SP2 purification converges, flagged converged, to a state tens of eV
                     # above the ground state (MNDO PH3: -158.85 vs -198.33 eV) although adaptive, adaptive+SP2 and plain Pulay agree
-                    return Outcome.fail("pulay_sp2_high_energy_state", msg, labels, True, dE=dE)
+                    return Outcome.fail("pulay_high_energy_state", msg, labels, True, dE=dE)
                 return Outcome.fail(f"other_scf_solution:{devname}", msg, labels, True, dE=dE)
             for k_, v_, t_ in (("energy", dE, tE), ("force", dF, tF), ("charges", dq, tF), ("orbital_energies", de, 10 * tF)):
                 if v_ > t_:
